@@ -189,6 +189,11 @@ func callbackConfig(sc *transport.ServerConfig) {
 	sc.GetCertificate = func(transport.ClientHandshakeInfo) (*transport.Certificate, error) { return tc, nil }
 	sc.GetCertList = func() ([]*transport.Certificate, error) { return []*transport.Certificate{tc}, nil }
 	sc.Certificate, sc.Intermediate, sc.KeyPair, sc.KEMKeyPair = nil, nil, nil, nil
+	if sc.IsHidden {
+		// as hopserver.NewHopServer sets a hidden virtual host up
+		tc.HostNames = []string{string(fix.ServerName.Label)}
+		sc.HiddenModeVHostNames = tc.HostNames
+	}
 }
 
 // cookieAcrossServers: a cookie minted by one server instance means nothing to
@@ -613,7 +618,19 @@ func hiddenSilence(r *vh.Runner, c *vh.Case, rep int) {
 	fcl.Close()
 	tw.Server.Close()
 
-	w, id := newLoggedWorld(func(sc *transport.ServerConfig) { sc.IsHidden = true })
+	// the hidden server is configured statically or, like a server built by
+	// hopserver, through the certificate callbacks (no top-level keys); its
+	// handshake time-out is anything from none to minutes
+	hsTO := time.Duration([]int{15, 300, 0, 5, 60, 2}[rep%6]) * time.Second
+	viaCallbacks := rep%2 == 1
+	w, id := newLoggedWorld(func(sc *transport.ServerConfig) {
+		sc.IsHidden = true
+		sc.HandshakeTimeout = hsTO
+		if viaCallbacks {
+			callbackConfig(sc)
+		}
+	})
+	r.Count(fmt.Sprintf("hidden_server_configured_via_callbacks:%v", viaCallbacks), 1)
 	defer w.Server.Close()
 	// a valid request for this server, captured but not delivered
 	held, addrV, vcl := captureFlow(w, id, true, nil, func(mt byte) bool { return mt == 0x08 })
@@ -691,14 +708,20 @@ func hiddenSilence(r *vh.Runner, c *vh.Case, rep int) {
 		r.Count("replay_inside_window_datagrams(not judged)", int64(n))
 	}
 	// stale: the same request after the 5 s window, from its own and from another address
-	time.Sleep(time.Duration(6+rng.Intn(120)) * time.Second)
-	for i, src := range []*net.UDPAddr{addrV, simnet.Addr(7998, 5998)} {
-		n := deliver(stim{"stale-request", req, false}, src)
-		r.Count("evaluations", 1)
-		r.Count("hidden_stimuli", 1)
-		r.Nontrivial(fmt.Sprintf("hid|%d|stale|%d", rep, i))
-		if n > 0 {
-			c.Violate("C19:hidden-server-answers:stale-request", map[string]any{"age_s": time.Since(capturedAt).Seconds(), "datagrams_emitted": n})
+	// (at several ages: whatever else the server is configured with, the window is 5 s)
+	for ai, age := range []int{6 + rng.Intn(2), 8 + rng.Intn(4), 14, 30 + rng.Intn(30), 100 + rng.Intn(200), 400} {
+		if d := time.Duration(age)*time.Second - time.Since(capturedAt); d > 0 {
+			time.Sleep(d)
+		}
+		for i, src := range []*net.UDPAddr{addrV, simnet.Addr(7998-ai, 5998)} {
+			n := deliver(stim{"stale-request", req, false}, src)
+			r.Count("evaluations", 1)
+			r.Count("hidden_stimuli", 1)
+			r.Nontrivial(fmt.Sprintf("hid|%d|stale|%d|%d", rep, ai, i))
+			if n > 0 {
+				c.Violate("C19:hidden-server-answers:stale-request", map[string]any{"age_s": time.Since(capturedAt).Seconds(), "datagrams_emitted": n, "server_handshake_timeout": hsTO.String()})
+				return
+			}
 		}
 	}
 	if rep == 0 {
